@@ -478,6 +478,10 @@ Section StmtSQ.
           eapply sq_ext; [intro; symmetry; apply Safety.bind_ret|]. apply IH.
         * eapply sq_ext; [intro; symmetry; apply bind_assoc'|].
           apply sq_bind_r; [apply sq_stmt_or_goto|intros _].
+          eapply orel_ext; [intro; symmetry; apply bind_assoc'|].
+          apply (orel_bind _ RQ_ocat); [rq_walk|intros e].
+          eapply orel_ext; [intro; symmetry; apply bind_assoc'|].
+          apply (orel_bind _ RQ_ocat); [destruct e; rq_walk|intros ?].
           eapply orel_ext; [intro; symmetry; apply Safety.bind_ret|]. apply (orel_ret _ RQ_ocat).
   Qed.
 End StmtSQ.
